@@ -48,6 +48,20 @@ impl FangsList {
             self.0.push((id, fangs));
         }
     }
+    /// whether both are the fangs of the same ( stack of ) `Ohkami`(s)
+    #[cfg(feature="__rt_native__")]
+    pub(super) fn is_same_as(&self, another: &Self) -> bool {
+        self.0.len() == another.0.len() &&
+        self.0.iter().zip(another.0.iter()).all(|((a, _), (b, _))| a == b)
+    }
+    /// fangs effective at a node: its own ones inside those effective at its parent
+    pub(super) fn inherited(self, outer: &Self) -> Self {
+        let mut inherited = self.0.into_iter()
+            .filter(|(id, _)| outer.0.iter().all(|(outer_id, _)| outer_id != id))
+            .collect::<Vec<_>>();
+        inherited.extend(outer.0.iter().cloned());
+        Self(inherited)
+    }
     pub(super) fn append(&mut self, another: Self) {
         for (id, fangs) in another.0.into_iter() {
             self.add(id, fangs)
